@@ -379,3 +379,35 @@ Fixpoint mismatches_from (fixed : bool) (n : nat) (cs : list c14_case) : list na
               else n :: mismatches_from fixed (S n) r
   end.
 Definition mismatches (fixed : bool) (cs : list c14_case) : list nat := mismatches_from fixed 0 cs.
+
+(* ---------- histories on ONE cell object: each optimising call is compared with the model applied to the
+   cell's state just before that call (the model is a pure function of the current groups) ---------- *)
+Record c14_step := mkStep {
+  t_segs : list Z;
+  t_before : list group;               (* the cell's groups when the call was made *)
+  t_one : option string;               (* Some id: optimise_segment_group(id); None: optimise_segment_groups() *)
+  t_res_before : list obs_res;         (* get_all_segments_in_group of every group just before *)
+  t_after : obs_groups;                (* the cell's groups after the call *)
+  t_res_after : list obs_res           (* ... and what every group resolves to then *)
+}.
+
+Definition step_ok (t : c14_step) : bool :=
+  let G := t_before t in
+  let f := default_fuel G in
+  let r := match t_one t with
+           | Some a => optimise_group natsortS isortZ (t_segs t) f G a
+           | None => optimise_all_c (t_segs t) f G
+           end in
+  obs_list_eqb (model_resolved (t_segs t) G) (t_res_before t)
+  && obs_groups_eqb (obs_of_gres r) (t_after t)
+  && match r with
+     | Ret G1 => obs_list_eqb (model_resolved (t_segs t) G1) (t_res_after t)
+     | Err _ => true
+     end.
+
+Fixpoint step_mismatches_from (n : nat) (ts : list c14_step) : list nat :=
+  match ts with
+  | [] => []
+  | t :: r => if step_ok t then step_mismatches_from (S n) r else n :: step_mismatches_from (S n) r
+  end.
+Definition step_mismatches (ts : list c14_step) : list nat := step_mismatches_from 0 ts.
